@@ -14,7 +14,7 @@ func init() {
 		ID: "C19",
 		Explanation: "Decides structural necessary conditions of 'the metafile is an exact account' (not the exactness of every byte attribution): R1 the routine that counts final bytes for the metafile (accurateFinalByteCount) and the routine that produces them (substituteFinalPaths) — which the code comment says must match — handle the same piece kinds, derive each substituted path through the same call sequence, and the content call site passes the same path function with the same base directory that the count uses; R2 every graph.OutputFile constructed in bundler/linker carries a metafile chunk, and generateMetadataJSON walks the very slice of output files that Compile returns; metafile loop ordering is covered by C08/R1. NOT covered: per-input byte attribution inside a chunk, import/export lists.",
 		Run: func(p *Prog, tier string) []*RuleResult {
-			return []*RuleResult{c19Siblings(p), c19EveryOutputListed(p)}
+			return []*RuleResult{c19Siblings(p), c19EveryOutputListed(p), c19TemplateOnly(p)}
 		},
 	})
 }
@@ -275,5 +275,38 @@ func c19EveryOutputListed(p *Prog) *RuleResult {
 		}
 	}
 	r.Floor(4)
+	return r
+}
+
+// C19/R3 whitespace-stripping only touches templates.
+//
+// The minified metafile is produced by stripping every space and newline from the JSON *templates*
+// (config.MetafileFormat.MaybeRemoveWhitespace) before paths and numbers are formatted in. Applied
+// to anything that already contains data it would also strip spaces inside quoted paths, so the
+// metafile would name files that do not exist. Rule: every argument of MaybeRemoveWhitespace in the
+// module is a compile-time constant string.
+func c19TemplateOnly(p *Prog) *RuleResult {
+	r := NewRule("C19/R3 strip-templates-only", "MetafileFormat.MaybeRemoveWhitespace is only ever applied to compile-time constant JSON templates, never to text that already contains paths or other data")
+	n := 0
+	for _, fn := range p.ModuleFuncs() {
+		k := 0
+		eachInstr(fn, func(b *ssa.BasicBlock, in ssa.Instruction) {
+			c, ok := in.(*ssa.Call)
+			if !ok || FuncNameOf(c) != "config.(MetafileFormat).MaybeRemoveWhitespace" || len(c.Call.Args) != 2 {
+				return
+			}
+			n++
+			k++
+			r.Instances++
+			key := fmt.Sprintf("%s call #%d", FuncName(fn), k)
+			if _, ok := constString(c.Call.Args[1]); ok {
+				r.OK(key, false, "constant template")
+			} else {
+				r.Fail(key, p.Pos(c.Pos()), "whitespace is stripped from a string that is not a constant template ("+describeVal(c.Call.Args[1])+"): spaces inside quoted paths are removed too, so the minified metafile (used automatically for large builds) names inputs that do not exist")
+			}
+		})
+	}
+	r.Anchor("calls of config.(MetafileFormat).MaybeRemoveWhitespace", n > 0)
+	r.Floor(40)
 	return r
 }
